@@ -428,6 +428,15 @@ def check_result_roundtrip(ctx, store, res, tag, n):
         return
     new = r[1]
     ctx.count('result_roundtrip:' + cls)
+    # second documented loading path: csep.load_json(<class>, path) -> FileSystem.load -> <class>.from_dict
+    r2 = call(csep.load_json, type(res), path)
+    if r2[0] != 'ok':
+        ctx.violate('C18', 'load', '%s:load_json:%s' % (cls, r2[1]), {'test': tag, 'msg': r2[2]})
+        return
+    for fld in ('name', 'status', 'observed_statistic', 'quantile'):
+        if not _field_equal(getattr(new, fld, None), getattr(r2[1], fld, None)):
+            ctx.violate('C18', 'fields', '%s:load_json-differs-from-load_evaluation_result:%s' % (cls, fld), {'test': tag})
+            return
     ctx.log('result', tag, cls, getattr(new, 'status', None), getattr(new, 'observed_statistic', None),
             getattr(new, 'quantile', None))
     if type(new).__name__ != cls:
